@@ -9,7 +9,7 @@
 -/
 import YaraModel.Gen.Precedence
 import YaraModel.Lemmas.Cond
-import YaraModel.Lemmas.CondCompile
+import YaraModel.Lemmas.CondExec
 namespace YaraModel.Cond
 open YaraModel YaraModel.C YaraModel.CondVm YaraModel.CondCompile YaraModel.Gen.VmOps YaraModel.Gen.Precedence
 
@@ -276,5 +276,57 @@ theorem reader_model_is_spec (blocks : List (Nat × Bytes)) (off n : Nat)
 
 example : readBytes [(0, [1, 2, 3]), (3, [4, 5])] 2 2 = none ∧ readBytes [(0, [1, 2, 3]), (3, [4, 5])] 3 2 = some [4, 5] := by
   decide
+
+
+/-! ## (d) compile_correct -/
+
+/- **compile_correct** — FULL STATEMENT (long-term goal; proved below for the loop-free fragment):
+
+theorem compile_correct (env : Env) (henv : EnvOk env) (cond : Expr) (hwf : WF env (ctxOfEnv env) {} cond) :
+    ∃ fuel, modelVerdict env cond fuel = some (ruleVerdict env cond)
+
+   `modelVerdict` = run the code `compile` emits (mirror of the grammar.y actions) on the VM model whose pure opcodes
+   are `Gen.VmOps` (regenerated from exec.c); `ruleVerdict` = the specification.  `WF` (Model/CondCompile.lean) lists the
+   side conditions: well-typed, no floats / `P% of` (Float is opaque in Lean; finding F20), no integer equal to the
+   sentinel (F14), defined quantifiers (F18), 0/1-valued loop bodies and `or` left operands (F19).
+   Missing for the full statement: the three loop constructs (`forRange`, `forEnum`, `forOf`). -/
+
+/-- **compile_correct, loop-free fragment**: literals, filesize, externals, loop variables, module-undefined values,
+    `#a`, `#a in`, `@a[i]`, `!a[i]`, intN/uintN readers, unary/binary integer operators, comparisons (int, string),
+    string operators, `matches`, `$a`, `$a at`, `$a in`, `not`, `defined`, short-circuit `and` / `or` (jumps),
+    rule references, and the whole `of` family over string sets and rule sets (`N/all/any/none of S [in (..)] [at e]`).
+    For every environment and every such condition: running the emitted code on the VM model yields the verdict of the
+    specification. -/
+theorem compile_correct_loopfree_partial (env : Env) (henv : EnvOk env) (cond : Expr)
+    (hlf : loopFree cond = true) (hwf : WF env (ctxOfEnv env) {} cond) :
+    ∃ fuel, modelVerdict env cond fuel = some (ruleVerdict env cond) := by
+  let c := ctxOfEnv env
+  have hrun := runs_boolpos (compile c cond) (tyOf c cond) _
+    (exec_loopfree env henv (compileRule c cond) cond c {} hlf hwf)
+  have hinv : MemInv c {} ({} : St).mem := by
+    refine ⟨rfl, ?_, ?_⟩
+    · intro k hk
+      exact absurd (by simp [c, ctxOfEnv]) hk
+    · intro n hn
+      simp at hn
+  obtain ⟨n, hn⟩ := hrun 0 {} (CodeAt.whole _) rfl hinv
+  refine ⟨n + 1, ?_⟩
+  have hr := run_of_runN env (compileRule c cond) n {} _ hn (by simp [compileRule])
+  simp only [modelVerdict]
+  rw [hr]
+  simp only [verdictOf, List.append_nil, ruleVerdict]
+  rw [← word_truth env.blocks _ _ (wf_typed env c {} cond hwf)]
+
+/-- non-vacuity: a condition with a string query, a comparison and a short-circuit `and` satisfies the hypotheses -/
+example : let env : Env := ⟨[[(0, 2), (5, 2)]], [(0, [97, 98, 0, 0, 0, 97, 98])], 7, [], []⟩
+    let cond := Expr.and (.found (.id 0)) (.cmp .lt (.count (.id 0)) (.int 3))
+    EnvOk env ∧ loopFree cond = true ∧ WF env (ctxOfEnv env) {} cond ∧ ruleVerdict env cond = true := by
+  refine ⟨?_, rfl, ?_, ?_⟩
+  · intro b hb
+    simp at hb
+    subst hb
+    decide
+  · simp [WF, SRefOk, tyOf, UNDEF]
+  · simp [ruleVerdict, eval, Env.matchesOf, vCmp, cmpInt, vAnd, asBool, truthy]
 
 end YaraModel.Cond
